@@ -1,4 +1,6 @@
 import H3.Lemmas.E2ECompose
+import H3.Lemmas.E2ESplit
+import H3.Lemmas.E2EInter
 import H3.Props.C12
 import H3.Props.C14
 /-! # C01 — end-to-end message fidelity (composition theorem)
@@ -22,8 +24,14 @@ Property theorems only.  Glue: `H3.E2E` (`Model/E2E.lean`) — `Message`, `wire`
   completeness direction (own wire fields are accepted, with the same parts) is proved here
   (`recvRequest_sent`, `recvResponse_sent`, `recvTrailers_sent`).
 
+* C07 (`H3.Iso`: the product of request machines sharing the error cell, deliveries and polls as
+  events of one history, the driver's error side; `run_decomposes`, `polled_run` behind
+  `C07_healthy_stream_delivers_polled`): `C01_end_to_end_interleaved`;
+* `split()` (`Model/Split.lean`): `C01_split_anywhere`.
+
 Assumptions that stay (each explicit in the statements): the `http` crate parameter `H` with the
-round-trip facts `PseudoBack` (and `HttpRoundTrip` for "same scheme/authority/path"); R-14 (calls
+laws `HttpLaws` (C12) and `HttpRoundTrip` — from which `HeadOk`/`PseudoBack` ("the head survives the
+trip") are DERIVED for heads made of values of the crate (`HeadValues`, `C01_head_survives`); R-14 (calls
 awaited: `Awaited`); R-T (transport chunks non-empty, a delivery that arrives after a poll shows as
 `pend` in the script); the receiver's `max_field_section_size` (C10); a message the sender's own
 `http::HeaderMap` can hold (`Holdable`: at most 24576 distinct names, any number of values — the
@@ -231,38 +239,37 @@ theorem C01_pseudo_back_of_laws (H : Http) (L : HttpLaws H) (R : HttpRoundTrip H
     (ha : ∀ a, uri.authority = some a → ∃ w, H.parseAuthority w = some a)
     (hp : ∀ x, (Pseudo.request method uri ext).path = some x → ∃ w, H.parsePath w = some x)
     (hx : ∀ x, (Pseudo.request method uri ext).protocol = some x → parseProtocol x = some x) :
-    PseudoBack H (Pseudo.request method uri ext) := by
-  refine ⟨?_, ?_, ?_, ?_, ?_, hx⟩
-  · intro v hv
-    have : (Pseudo.request method uri ext).method = some method := rfl
-    rw [this] at hv; cases hv; exact hm
-  · intro s h
-    obtain ⟨w, hw⟩ := hs s h
-    exact R.scheme_print_parse w s hw
-  · intro a h
-    obtain ⟨w, hw⟩ := ha a h
-    have := L.authority_as_str w a hw
-    rw [this] at hw ⊢
-    exact hw
-  · intro x h
-    obtain ⟨w, hw⟩ := hp x h
-    exact R.path_print_parse w x hw
-  · intro st h
-    have : (Pseudo.request method uri ext).status = none := rfl
-    rw [this] at h; cases h
+    PseudoBack H (Pseudo.request method uri ext) :=
+  pseudoBack_of_laws H L R method uri ext hm hs ha hp hx
+
+/-- **The head survives the trip — from the laws of the `http` crate, not as a hypothesis.**  Let the
+    head of `m` be made of values of the crate (`HeadValues`: a token as method; scheme, authority,
+    path-and-query that the crate's own parsers produced; a `Protocol` h3 knows; `Host` values that
+    agree; a status 100…999), and let the sender accept `m` (`headerOf m = ok`).  Under `HttpLaws`
+    (C12) and `HttpRoundTrip` — parse-of-print is the identity for the crate's `Scheme`, `Authority`,
+    `PathAndQuery`; scheme + authority + path always build, an authority alone builds (the
+    authority-form target of a plain CONNECT); a built `Uri` has the parts it was built from —
+    `HeadOk` holds, and what the receiving application is handed is `expectedHead m`: the same
+    method, `:scheme` / `:authority` / `:path` as sent (`C01_delivered_parts`), the same `Protocol`,
+    the header map the sender filled; resp. the same status. -/
+theorem C01_head_survives (H : Http) (L : HttpLaws H) (R : HttpRoundTrip H) (role : Role) (m : Message)
+    (h : Header) (hh : headerOf m = .ok h) (hv : HeadValues H role m) :
+    HeadOk H role m (expectedHead m) :=
+  headOk_of_values H L R role m h hh hv
 
 /-! ## 4. end to end -/
 
 /-- **`end_to_end`** (requests: `role = server`, the message head is a request; responses:
-    `role = client`, the head is a status — `HeadOk` ties the two).  The sender submits `m` through
+    `role = client`, the head is a status — `HeadValues` ties the two).  The sender submits `m` through
     awaited calls under ANY write-acceptance scripts; the transport carries what the sender's stream
     was handed, cut into ANY non-empty chunks, with `pend` anywhere, then FIN; the receiver follows
-    the documented pattern.  Then the receiving application is handed the head `out` (same method,
-    scheme, authority, path / same status: `C01_delivered_parts`), the header values in the same
-    per-name order, the identical body byte sequence, the same trailers, and exactly one clean end;
-    no error is recorded on either side. -/
-theorem C01_end_to_end (H : Http) (role : Role) (m : Message) (h : Header) (out : HeadOut)
-    (L : Nat) (hwf : WellFormed m h) (hfit : Fits m h L) (hhead : HeadOk H role m out)
+    the documented pattern.  Then the receiving application is handed the head `expectedHead m` (same
+    method, scheme, authority, path / same status: `C01_delivered_parts`), the header values in the
+    same per-name order, the identical body byte sequence, the same trailers, and exactly one clean
+    end; no error is recorded on either side.  That the head survives is derived from the laws of
+    the `http` crate (`C01_head_survives`); no hypothesis speaks about the receiver's parsers. -/
+theorem C01_end_to_end (H : Http) (L' : HttpLaws H) (R : HttpRoundTrip H) (role : Role) (m : Message)
+    (h : Header) (L : Nat) (hwf : WellFormed m h) (hfit : Fits m h L) (hv : HeadValues H role m)
     (g : Bool) (gN : Nat) (hg : gN < GREASE_RANGE_END) (scripts : List (List Nat))
     (haw : Awaited (freshStream g) (callsOf (framesOf m h) gN scripts))
     (script : List Ev) (hsc : ScriptOK script) (hnr : NoReset script) (hfin : hasFin script = true)
@@ -270,13 +277,14 @@ theorem C01_end_to_end (H : Http) (role : Role) (m : Message) (h : Header) (out 
       (sendAll (freshStream g) (callsOf (framesOf m h) gN scripts)).log) :
     (sendAll (freshStream g) (callsOf (framesOf m h) gN scripts)).fin = true ∧
     deliver H role L script =
-      { head := some out, body := m.pieces.flatten, cleanEnd := true, ends := 1,
+      { head := some (expectedHead m), body := m.pieces.flatten, cleanEnd := true, ends := 1,
         trailers := some (m.trailers.map mapOf), env := {} } := by
   obtain ⟨a, b, _⟩ := sendAll_message (framesOf m h) (frames_sendable m h hwf) g gN hg scripts haw
   refine ⟨b, ?_⟩
   have hb' : evBytes (upToFin script) = streamBytes m (if g then some gN else none) := by
     rw [hbytes, a, streamBytes, wire_eq m h hwf.header]
-  refine deliver_streamBytes H role m h out L hwf hfit hhead _ ?_ script hsc hnr hfin hb'
+  refine deliver_streamBytes H role m h _ L hwf hfit (headOk_of_values H L' R role m h hwf.header hv) _ ?_
+    script hsc hnr hfin hb'
   intro n hn
   cases g with
   | false => simp at hn
@@ -285,13 +293,17 @@ theorem C01_end_to_end (H : Http) (role : Role) (m : Message) (h : Header) (out 
 /-! ## 5. interleavings -/
 
 /-  Full statement of the design (`interleaving_irrelevant`): every interleaving of client task,
-    server task, drivers and deliveries is equivalent to a sequential one.  Proved below: what the
-    models support.  Not covered (hence `_partial`): the connection driver (control stream, GOAWAY:
-    C04/C08/C09 models) is not a component of the products used here — the cells it shares with
-    request streams are the error cell (covered: part (b)), the write-once peer settings (here the
-    parameters `L` / `applied`) and the closing flag (C08/C09); deliveries are part of a stream's
-    transport script (`pend` = a poll before the data arrived, R-T); real tokio/Quinn scheduling is
-    not modelled (granularity: one poll of one task or one transport event). -/
+    server task, drivers and deliveries is equivalent to a sequential one.  What is proved:
+    `C01_interleaving_irrelevant_partial` (the machines' projections and commutations),
+    `C01_split_anywhere` (split streams) and `C01_end_to_end_interleaved` (the link to delivery: in ANY
+    interleaving each receiver's digest is its own message).  What really remains, hence `_partial`:
+    (1) of the connection driver only the error side is a component of the product
+    (`H3.Iso.HEv.drive`: it closes the connection when it finds the error cell filled — which never
+    happens in these runs); its other work — control stream, SETTINGS (here the parameters `L` /
+    `applied`, write-once), GOAWAY and the closing flag (C08/C09), accepting streams (C04) — is
+    modelled in those properties' machines, not in this product; (2) real tokio/Quinn scheduling is
+    not modelled: the granularity is one poll of one task or one transport event, wakers are not
+    modelled (a task that is `Pending` is polled again by the schedule, R-T). -/
 
 /-- **`interleaving_irrelevant`.**
     (a) Send side, the connection machine of C14 (`H3.SendSide.step`: API calls of any stream,
@@ -299,12 +311,17 @@ theorem C01_end_to_end (H : Http) (role : Role) (m : Message) (h : Header) (out 
     buffer in flight, FIN — of request stream `sid` after ANY run is the result of the steps that
     address `sid`, in their order; so two runs with the same steps for `sid` give it the same log,
     whatever else is interleaved.
-    (b) Receive side, any number of request streams sharing the connection error cell: for ANY
+    (b) Receive side with scripted transports (a delivery that arrives after a poll is a `pend` in the
+    stream's script), any number of request streams sharing the connection error cell: for ANY
     schedule of polls of their calls, if each stream run alone answers no connection error, then in
     the interleaved run each stream gets exactly the answers, and ends in exactly the state, of its
-    isolated run, and the cell is untouched; two polls of different streams commute.
-    (c) A split stream: a step of the send half and a poll of the receive half act on disjoint
-    components and commute. -/
+    isolated run, and the cell is untouched; two polls of different streams commute.  (The link to
+    delivery, with deliveries as events of the history, is `C01_end_to_end_interleaved`.)
+    (c) One request stream, whole or split (`H3.E2E.Handle`): a step of the task that owns the send
+    side and a poll of the task that owns the receive side commute — same answer, same state of the
+    receive machine (buffer, decoder, `remaining_data`, remembered trailers, error cell, events to
+    come), same state of the send machine (bytes taken, buffer in flight, FIN, grease flag); for the
+    split itself see `C01_split_anywhere`. -/
 theorem C01_interleaving_irrelevant_partial :
     (∀ (st : State) (steps : List Step) (sid : Nat) (s : Stream), sid % 4 = 0 →
       getStream st.streams sid = some s →
@@ -323,16 +340,22 @@ theorem C01_interleaving_irrelevant_partial :
       ((k.poll H j cj).2.poll H i ci).1 = (k.poll H i ci).1 ∧
       ((k.poll H i ci).2.poll H j cj).2.cell = ((k.poll H j cj).2.poll H i ci).2.cell ∧
       ∀ x, ((k.poll H i ci).2.poll H j cj).2.comps x = ((k.poll H j cj).2.poll H i ci).2.comps x) ∧
-    (∀ (H : Hdr) (cell : Option Nat) (h : Halves) (op : SOp) (call : RCall),
-      (Halves.recvPoll H cell (h.sendOp op) call).1 = (Halves.recvPoll H cell h call).1 ∧
-      (Halves.recvPoll H cell (h.sendOp op) call).2.1 = (Halves.recvPoll H cell h call).2.1 ∧
-      (Halves.recvPoll H cell (h.sendOp op) call).2.2 = ((Halves.recvPoll H cell h call).2.2).sendOp op) := by
+    (∀ (HL : Nat → Hdr) (h : Handle) (op : SOp) (call : RCall),
+      ((h.sendOp op).recvPoll HL call).1 = (h.recvPoll HL call).1 ∧
+      ((h.sendOp op).recvPoll HL call).2.rx = ((h.recvPoll HL call).2.sendOp op).rx ∧
+      ((h.sendOp op).recvPoll HL call).2.tx = ((h.recvPoll HL call).2.sendOp op).tx ∧
+      ((h.sendOp op).recvPoll HL call).2.rx = (h.recvPoll HL call).2.rx ∧
+      ((h.sendOp op).recvPoll HL call).2.tx = op.apply h.tx) := by
   refine ⟨fun st steps sid s hs h => getStream_run steps st sid s hs h, ?_,
     fun H σ k hk => conn_run_projects H σ k hk,
-    fun H k i j hij ci cj hi hj => conn_polls_commute H k i j hij ci cj hi hj,
-    fun H cell h op call => halves_commute H cell h op call⟩
-  intro st steps steps' sid s hs h heq
-  rw [getStream_run steps st sid s hs h, getStream_run steps' st sid s hs h, heq]
+    fun H k i j hij ci cj hi hj => conn_polls_commute H k i j hij ci cj hi hj, ?_⟩
+  · intro st steps steps' sid s hs h heq
+    rw [getStream_run steps st sid s hs h, getStream_run steps' st sid s hs h, heq]
+  · intro HL h op call
+    obtain ⟨a, b⟩ := send_recv_commute HL h op call
+    refine ⟨a, b.rx, b.tx, ?_, ?_⟩
+    · rw [b.rx, Handle.sendOp_rx]
+    · rw [Handle.recvPoll_tx, Handle.sendOp_tx]
 
 /-- (a) applied to a message: in ANY run of the sender's connection machine whose steps for
     stream `sid` are the awaited calls of `m` with their transport polls — other streams' calls and
@@ -350,6 +373,140 @@ theorem C01_wire_of_send_in_any_run (m : Message) (h : Header) (hwf : WellFormed
   refine ⟨_, getStream_run steps st sid _ hsid hfresh, ?_, ?_⟩
   · rw [hproj, ← sendAll_eq_runS, a, streamBytes, wire_eq m h hwf.header]
   · rw [hproj, ← sendAll_eq_runS, b]
+
+/-! ## 6. split streams -/
+
+/-- **`split_anywhere`.**  `split()` is modelled (`Model/Split.lean`): it consumes the whole stream
+    object and builds two — the receive half is handed the buffered chunks, the end-of-stream flag,
+    the decoder's memo, `remaining_data`, the remembered trailers and the size limit; the send half
+    the send side, and fresh receive fields.  Then:
+    (a) the documented receive pattern (head call, `recv_data` until `None`, `recv_trailers`; every call
+    awaited = polled again after `Pending`), for both roles, on a handle that the application splits
+    just before its `k`-th call — ANY `k`: before the head call, between two `recv_data` calls in the
+    middle of a DATA frame, after the body's end with the trailers put aside, or never — answers what
+    the pattern answers on the unsplit stream and leaves the receive machine in the same state; the
+    send side is not touched;
+    (b) on a stream just opened that is `recvPattern` — so every theorem about `recvPattern` /
+    `deliver` (`C01_recv_of_wire`, `C01_end_to_end`) holds verbatim with a split anywhere;
+    (c) ANY interleaving of receive polls, send steps (calls and transport polls) and `split()`s: the
+    receive polls are answered, and leave the receive machine, as if made alone on the stream as it
+    was; the send side is what the send steps alone make of it — the two tasks of a split stream
+    are independent, and so are the two uses of a whole one;
+    (d) `split()` itself commutes with a receive poll and with a send step. -/
+theorem C01_split_anywhere :
+    (∀ (role : Role) (HL : Nat → Hdr) (k : Option Nat) (h : Handle),
+      (recvPatternH role HL k h).1 = (recvPatternFrom role (HL h.maxSize) h.rx).1 ∧
+      (recvPatternH role HL k h).2.rx = (recvPatternFrom role (HL h.maxSize) h.rx).2 ∧
+      (recvPatternH role HL k h).2.tx = h.tx) ∧
+    (∀ (role : Role) (HL : Nat → Hdr) (k : Option Nat) (script : List Ev) (L : Nat) (tx : Stream),
+      (recvPatternH role HL k (.whole (Whole.fresh script L tx))).1 = recvPattern role (HL L) script) ∧
+    (∀ (HL : Nat → Hdr) (acts : List Act) (h : Handle),
+      (Handle.run HL h acts).1 = (pollsRun (HL h.maxSize) h.rx (acts.filterMap Act.recv?)).1 ∧
+      (Handle.run HL h acts).2.rx = (pollsRun (HL h.maxSize) h.rx (acts.filterMap Act.recv?)).2 ∧
+      (Handle.run HL h acts).2.tx = runS h.tx (acts.filterMap Act.send?)) ∧
+    (∀ (HL : Nat → Hdr) (h : Handle) (call : RCall) (op : SOp),
+      (h.split.recvPoll HL call).1 = (h.recvPoll HL call).1 ∧
+      (h.split.recvPoll HL call).2.rx = (h.recvPoll HL call).2.split.rx ∧
+      (h.split.recvPoll HL call).2.tx = (h.recvPoll HL call).2.split.tx ∧
+      (h.split.sendOp op).rx = (h.sendOp op).split.rx ∧ (h.split.sendOp op).tx = (h.sendOp op).split.tx) := by
+  refine ⟨?_, ?_, ?_, ?_⟩
+  · intro role HL k h
+    obtain ⟨a, b, _, d⟩ := recvPatternH_sim role HL k h
+    exact ⟨a, b, d⟩
+  · intro role HL k script L tx
+    rw [(recvPatternH_sim role HL k _).1]
+    exact recvPatternFrom_fresh role (HL L) script
+  · intro HL acts h
+    obtain ⟨a, b, _, d⟩ := Handle.run_projects HL acts h
+    exact ⟨a, b, d⟩
+  · intro HL h call op
+    obtain ⟨a, b⟩ := split_recv_commute HL h call
+    have c := split_send_commute h op
+    exact ⟨a, b.rx, b.tx, c.rx, c.tx⟩
+
+/-- `C01_recv_of_wire` with a `split()` anywhere: the receiving application splits its stream just
+    before ANY of its calls (or never); what it is handed is the message all the same. -/
+theorem C01_recv_of_wire_split (H : Http) (role : Role) (m : Message) (h : Header) (out : HeadOut)
+    (L : Nat) (hwf : WellFormed m h) (hfit : Fits m h L) (hhead : HeadOk H role m out)
+    (g : Option Nat) (hg : ∀ n, g = some n → n < GREASE_RANGE_END)
+    (script : List Ev) (hsc : ScriptOK script) (hnr : NoReset script) (hfin : hasFin script = true)
+    (hbytes : evBytes (upToFin script) = streamBytes m g) (k : Option Nat) (tx : Stream) :
+    deliverOf H role L (recvPatternH role (hdrOf H role) k (.whole (Whole.fresh script L tx))).1 =
+      { head := some out, body := m.pieces.flatten, cleanEnd := true, ends := 1,
+        trailers := some (m.trailers.map mapOf), env := {} } := by
+  rw [C01_split_anywhere.2.1 role (hdrOf H role) k script L tx]
+  exact deliver_streamBytes H role m h out L hwf hfit hhead g hg script hsc hnr hfin hbytes
+
+/-! ## 7. end to end, interleaved -/
+
+/-- **`end_to_end_interleaved`.**  One connection, seen from both ends, run through ONE interleaved
+    sequence `evs` of: steps of the sending endpoint's connection machine (C14: API calls and
+    transport polls of any stream under any acceptance pattern, GOAWAY, the grease stream) and
+    events of the receiving endpoint (C07's product: deliveries on, and polls of the calls of, any
+    request stream; polls of its driver) — in ANY order.  `xs`: any number of exchanges
+    (`Exchange.Ok`): a well-formed message within the receiver's limit, its head made of values of the
+    `http` crate; among the sender's steps those of its stream are the awaited calls of the message
+    with their transport polls (any acceptance scripts, R-14); the receiver's stream is delivered
+    the bytes the sender's transport was handed, cut into non-empty chunks in ANY way, then FIN;
+    the receiving application follows the documented pattern, every call polled again after
+    `Pending`, its last poll after FIN; deliveries and polls interleaved at will with each other,
+    with the other streams and with the sender's steps.  Every other stream of the receiver's
+    history is such an exchange too, or at least is not told a connection-level error when run alone
+    (any stream-scoped fault is allowed on it: C07).
+
+    Then for EVERY exchange: the sender's stream has been handed exactly the stream bytes of its
+    message and is finished; the receiving application's digest — ALL answers of ALL its polls, the
+    `Pending` ones left out — is its own message: exactly one answer of the head call, the expected
+    head (`expectedHead`: same method, scheme, authority, path, protocol / status, header values in
+    per-name order); the body bytes handed out are the concatenation of the pieces sent; EXACTLY ONE
+    `Ok(None)` among all `recv_data` answers (`ends = 1` is the count of `end_` in the digest), and it
+    is the last; exactly one answer of `recv_trailers`, the trailers sent or `None`; h3 has reset and
+    stopped nothing on the stream.  This is what `deliver` (the awaited `recvPattern`) reports for ANY
+    scripted transport carrying the same bytes.  The error cell is empty and `close` was never called.
+
+    No hypothesis about errors on the exchanges' streams (that they never write the error cell is
+    proved: `healthy_quiet`), none about the receiver's parsers (`C01_head_survives`). -/
+theorem C01_end_to_end_interleaved (H : Http) (L' : HttpLaws H) (R : HttpRoundTrip H) (role : Role)
+    (L fuel : Nat) (xs : List Exchange) (st : State) (evs : List GEv)
+    (hx : ∀ x ∈ xs, x.Ok H role L fuel st (sndOf evs) (rcvOf evs))
+    (hothers : ∀ j ∈ Iso.sidsOf (rcvOf evs), (∃ x ∈ xs, x.sid = j) ∨
+      ∀ o ∈ (Iso.Req.run (isoCfg H role L) none {} (Iso.proj j (rcvOf evs))).2.2, o.isConn = false) :
+    (∀ x ∈ xs,
+      (∃ s, getStream (grun (isoCfg H role L) st {} evs).1.streams x.sid = some s ∧
+        s.log = streamBytes x.m (if x.g then some x.gN else none) ∧ s.fin = true) ∧
+      deliveredOf H role L (Iso.digest (Iso.obsOf x.sid (grun (isoCfg H role L) st {} evs).2.2))
+          (((grun (isoCfg H role L) st {} evs).2.1.get x.sid).rx.env) =
+        { head := some (expectedHead x.m), body := x.m.pieces.flatten, cleanEnd := true, ends := 1,
+          trailers := some (x.m.trailers.map mapOf), env := {} } ∧
+      (Iso.digest (Iso.obsOf x.sid (grun (isoCfg H role L) st {} evs).2.2)).heads.length = 1 ∧
+      (Iso.digest (Iso.obsOf x.sid (grun (isoCfg H role L) st {} evs).2.2)).trailers.length = 1 ∧
+      (∀ script : List Ev, ScriptOK script → NoReset script → hasFin script = true →
+        evBytes (upToFin script) = x.cs.flatten →
+        deliver H role L script =
+          deliveredOf H role L (Iso.digest (Iso.obsOf x.sid (grun (isoCfg H role L) st {} evs).2.2))
+            (((grun (isoCfg H role L) st {} evs).2.1.get x.sid).rx.env))) ∧
+    (grun (isoCfg H role L) st {} evs).2.1.cell = none ∧
+    (grun (isoCfg H role L) st {} evs).2.1.closed = [] := by
+  rw [grun_eq]
+  simp only
+  -- no stream of the history writes the cell
+  have hq : Iso.QuietHist (isoCfg H role L) {} (rcvOf evs) := by
+    intro i
+    by_cases hi : i ∈ Iso.sidsOf (rcvOf evs)
+    · rcases hothers i hi with ⟨x, hxm, rfl⟩ | ho
+      · exact (hx x hxm).quiet L' R
+      · exact Iso.quiet_of_no_connErr _ _ _ ho
+    · rw [Iso.proj_nil_of_not_mem i _ hi]; trivial
+  obtain ⟨hcell, hclosed, _⟩ := Iso.run_decomposes (isoCfg H role L) (rcvOf evs) {} rfl rfl hq
+  refine ⟨fun x hxm => ?_, hcell, hclosed⟩
+  have ok := hx x hxm
+  obtain ⟨hd, h1, h2⟩ := ok.delivered_in L' R hq
+  refine ⟨ok.sent, hd, h1, h2, ?_⟩
+  intro script hsc hnr hfin hbytes
+  rw [hd]
+  obtain ⟨s, hs, hlog, _⟩ := ok.sent
+  exact deliver_streamBytes H role x.m x.h _ L ok.wf ok.fits (ok.headOk L' R) _ ok.grease_ok script hsc hnr hfin
+    (by rw [hbytes, ok.carried s hs, hlog])
 
 /-! ## non-vacuity
 
@@ -492,6 +649,120 @@ example : deliver toy .server 273 (chunked 5 (wire m₁)) = want₁ := by
   obtain ⟨a, b, c, d⟩ := chunked_spec 5 (wire m₁)
   exact C01_recv_of_wire toy .server m₁ h₁ out₁ 273 wf₁ fits₁ headOk₁ none (by intro n h; cases h)
     _ a b c (by rw [d]; simp [streamBytes, greaseBytes])
+
+/-! ### the head from the laws; CONNECT -/
+
+theorem toy_rt : HttpRoundTrip toy where
+  scheme_print_parse := by
+    intro w v h
+    simp only [toy] at h ⊢
+    split at h
+    · rename_i hc; cases h; rw [if_pos hc]
+    · cases h
+  path_print_parse := by
+    intro w v h
+    simp only [toy] at h ⊢
+    split at h
+    · rename_i hc; cases h; rw [if_pos hc]
+    · cases h
+  uri_parts := by
+    intro s a p u h
+    simp only [toy] at h
+    split at h
+    · split at h
+      · cases h; rfl
+      · cases h
+    · cases h
+  uri_builds := by
+    intro s a p _ ha _
+    simp only [toy] at ha ⊢
+    split at ha
+    · rename_i hc; rw [if_pos hc]; rfl
+    · cases ha
+  uri_builds_authority := by
+    intro a ha
+    simp only [toy] at ha ⊢
+    split at ha
+    · rename_i hc; rw [if_pos hc]; rfl
+    · cases ha
+
+theorem values₁ : HeadValues toy .server m₁ :=
+  HeadValues.request m₁ GET ⟨some sHttps, some aCom, some slash⟩ none rfl (by decide)
+    (by intro s h; cases h; exact ⟨sHttps, by decide⟩) (by intro a h; cases h; exact ⟨aCom, by decide⟩)
+    (by intro x h; cases h; exact ⟨slash, by decide⟩) (by intro x h; cases h) (by intro h; cases h) (by decide)
+
+/-- `HeadOk` for `m₁` is a consequence of the laws; what arrives is `out₁` -/
+example : HeadOk toy .server m₁ out₁ := C01_head_survives toy toy_laws toy_rt .server m₁ h₁ wf₁.header values₁
+
+/-- a plain CONNECT: authority-form target `a.com:443`, neither `:scheme` nor `:path` on the wire; the
+    receiving application is handed method, authority and nothing else of a URI -/
+def aPort : List Nat := [97, 46, 99, 111, 109, 58, 52, 52, 51]
+def m₅ : Message :=
+  { head := .request mCONNECT ⟨none, some aPort, none⟩ none
+    headers := [([120], [49])], pieces := [[9, 8], [7]], trailers := none }
+
+example : expectedHead m₅ =
+    .request { method := mCONNECT, uri := { scheme := none, authority := some aPort, path := none },
+               protocol := none, headers := [([120], [[49]])] } := by decide +kernel
+
+example : deliver toy .server 1000 (chunked 3 (wire m₅)) =
+    { head := some (expectedHead m₅), body := [9, 8, 7], cleanEnd := true, ends := 1,
+      trailers := some none, env := {} } := by decide +kernel
+
+/-- ... and the hypotheses of `C01_head_survives` hold for it -/
+example : HeadValues toy .server m₅ :=
+  HeadValues.request m₅ mCONNECT ⟨none, some aPort, none⟩ none rfl (by decide)
+    (by intro s h; cases h) (by intro a h; cases h; exact ⟨aPort, by decide⟩)
+    (by intro x h; cases h) (by intro x h; cases h) (by intro h; cases h) (by decide)
+
+/-! ### split() -/
+
+/-- the transport delivers `wire m₁` so that the first DATA frame (`00 03 01 02 03`) is cut after its
+    first payload byte; the application splits just before its 2nd call (`k = some 1`: after the
+    head, before the first `recv_data`), its 3rd call (`some 2`: between two `recv_data` calls, one
+    payload byte handed out, `remaining_data = 2`, the rest of the frame not yet arrived), its last
+    call (`some 5`: after `recv_data` answered `None` and put the trailers aside) or never — the
+    answers are the same, and what is decoded from them is `want₁` -/
+def script₁ : List Ev :=
+  [.chunk ((wire m₁).take 28), .pend, .chunk (((wire m₁).drop 28).take 3), .chunk ((wire m₁).drop 31), .pend, .fin]
+
+example : ∀ k ∈ [none, some 1, some 2, some 3, some 5, some 6],
+    (recvPatternH .server (hdrOf toy .server) k (.whole (Whole.fresh script₁ 1000 (freshStream false)))).1 =
+      recvPattern .server (hdrOf toy .server 1000) script₁ ∧
+    deliverOf toy .server 1000
+      (recvPatternH .server (hdrOf toy .server) k (.whole (Whole.fresh script₁ 1000 (freshStream false)))).1 = want₁ := by
+  decide +kernel
+
+/-- the stream in the middle of that DATA frame: one payload byte handed out, two to come, one of
+    them buffered -/
+def mid₁ : Whole :=
+  { fs := { buf := [[2]], remaining := 2 }, script := [.chunk [3, 0, 0], .fin], maxSize := 1000,
+    tx := freshStream false }
+
+/-- after `split()` the receive half goes on inside the payload ... -/
+example : ((Handle.whole mid₁).split.recvPoll (hdrOf toy .server) .data).1 = .data [2] ∧
+    ((Handle.whole mid₁).recvPoll (hdrOf toy .server) .data).1 = .data [2] := by decide +kernel
+
+/-- ... which is a property of `Whole.split`, not of the shape of the records: a `split` that starts the
+    receive half with `remaining_data = 0` (`FrameStream::new`, as in the seeded change) reads the
+    payload byte `02` as a frame type and the call fails -/
+example : (Handle.recvPoll (hdrOf toy .server) .data
+      (.halves mid₁.split.1 { mid₁.split.2 with fs := { mid₁.split.2.fs with remaining := 0 } })).1 ≠ .data [2] := by
+  decide +kernel
+
+/-- the send half and the receive half at work in any order: three interleavings of the same send
+    steps and the same receive polls around a `split()` -/
+example :
+    let acts₁ : List Act := [.recv .data, .split, .send (.data [7]), .send (.poll 2), .recv .data, .send (.poll 9)]
+    let acts₂ : List Act := [.send (.data [7]), .recv .data, .send (.poll 2), .send (.poll 9), .recv .data, .split]
+    let acts₃ : List Act := [.split, .send (.data [7]), .send (.poll 2), .send (.poll 9), .recv .data, .recv .data]
+    let h₀ := Handle.whole mid₁
+    (Handle.run (hdrOf toy .server) h₀ acts₁).1 = [.data [2], .data [3]] ∧
+    (Handle.run (hdrOf toy .server) h₀ acts₂).1 = [.data [2], .data [3]] ∧
+    (Handle.run (hdrOf toy .server) h₀ acts₃).1 = [.data [2], .data [3]] ∧
+    (Handle.run (hdrOf toy .server) h₀ acts₁).2.tx.log = [0, 1, 7] ∧
+    (Handle.run (hdrOf toy .server) h₀ acts₂).2.tx.log = [0, 1, 7] ∧
+    (Handle.run (hdrOf toy .server) h₀ acts₃).2.tx.log = [0, 1, 7] := by decide +kernel
 
 end examples
 
